@@ -73,6 +73,9 @@ type DepthSample struct {
 	Height   int
 	TailIter int32
 	Logical  int
+	// TailSum is the sum of TailIterations over all live frames: whichever frame a loop
+	// is resumed in, its turns are counted somewhere on the stack.
+	TailSum int64
 }
 
 type dormantDebugger struct{}
@@ -247,6 +250,9 @@ func (r *R) addProbes(env *lisp.LEnv) {
 			if len(fr) >= 2 {
 				ds.TailIter = fr[len(fr)-2].TailIterations
 				ds.Logical = fr[len(fr)-2].HeightLogical
+			}
+			for i := range fr {
+				ds.TailSum += int64(fr[i].TailIterations)
 			}
 			r.DepthSamples = append(r.DepthSamples, ds)
 			return lisp.Int(len(fr))
